@@ -196,6 +196,15 @@ func VerifyNODATANSEC(msg *dns.Msg, nsecSet []dns.RR) error {
 				return ErrNSECBadDelegation
 			}
 
+			// The converse (RFC 6840 §4.1): NS without SOA is the
+			// parent's record AT a delegation point. It speaks for the
+			// parent, which holds the NS, DS and this NSEC there and
+			// nothing else; what other types the name has is the
+			// child's to say. Such a record denies DS only.
+			if q.Qtype != dns.TypeDS && parentSideDelegation(nsec.TypeBitMap) {
+				return ErrNSECBadDelegation
+			}
+
 			return nil
 		}
 	}
